@@ -437,6 +437,16 @@ def handle (st : DState) (line : String) : String × DState :=
        let (cb, _, _) := ackStr b.ack
        ("orb=" ++ (if orb then "true" else "false") ++ " ackmw=" ++ ca ++ " ackbare=" ++ cb, st)
      | none => ("bad-op", st))
+  | "withoutmwc" :: rest =>
+    (match mkPacket rest with
+     | some pkt =>
+       -- component level: the middleware directly around ICS-20 against ICS-20 alone
+       let orb := isOrbiterPacket st pkt
+       let a := mwOnRecv (appWiring st.cfg) noFaults st.w.orb (ctxOf st.w) pkt
+       let (ca, _, _) := ackStr a.ack
+       let cb := match ics20Recv st.cfg (ctxOf st.w) pkt with | .ok _ => "ok" | .err _ => "err" | .panic _ => "panic"
+       ("orb=" ++ (if orb then "true" else "false") ++ " ackmw=" ++ ca ++ " ackbare=" ++ cb, st)
+     | none => ("bad-op", st))
   | "cmpstacks" :: _ => ("same=true diff=-", st)
   | "cb" :: _ => ("same=true", st)
   | ["deposit", a, d, n] =>
